@@ -205,6 +205,11 @@ type sender interface {
 func checkC04(c *C04Case, rec *evid.Rec) (vs []pbt.Violation) {
 	done := pbt.Watch("C04", "TestC04", c)
 	defer done()
+	// the oracle below reorders its view of the connections: work on a copy, the
+	// case itself (which becomes the replay file on a failure) stays as generated
+	cp := *c
+	cp.Conns = append([]ConnScript(nil), c.Conns...)
+	c = &cp
 	recs := make([]*recorder, len(c.Conns))
 	for i := range recs {
 		recs[i] = &recorder{slow: time.Duration(c.SlowNs)}
@@ -231,10 +236,9 @@ func checkC04(c *C04Case, rec *evid.Rec) (vs []pbt.Violation) {
 		var ir *rig.InitiatorRig
 		ready0 := make(chan struct{}) // closed once the first connection's handlers are registered
 		if c.Role == "acceptor" {
-			next := 0
+			var next atomic.Int32 // callbacks of connections pending at once run on their own goroutines
 			ar = rig.StartAcceptor(c.Buf, 10*time.Second, func(h simplefixgo.AcceptorHandler) {
-				i := next
-				next++
+				i := int(next.Add(1)) - 1
 				if c.SetupNs > 0 {
 					time.Sleep(time.Duration(c.SetupNs)) // the application takes its time; the peer does not wait
 				}
